@@ -327,7 +327,30 @@ class Raised(Exception):
 _PURE_STR_METHODS = {n_ for n_ in dir(str) if not n_.startswith('_')} - {'format', 'format_map', 'join', 'encode', 'maketrans', 'translate'}
 
 
+class _NotPlain(Exception):
+    pass
+
+
+def _plain(v):
+    """the Python value of an interpreter value made of constants only (lists / tuples / dicts / sets of constants)"""
+    if isinstance(v, Const):
+        return v.v
+    if isinstance(v, TupleV):
+        return tuple(_plain(x) for x in v.items)
+    if isinstance(v, ListV) and not getattr(v, 'lazy', False):
+        return [_plain(x) for x in v.items]
+    if isinstance(v, DictV):
+        return {_plain(k): _plain(x) for k, x in v.items}
+    if isinstance(v, SetV):
+        return {_plain(x) for x in v.items}
+    raise _NotPlain()
+
+
 def _wrap_py(obj):
+    if isinstance(obj, dict):
+        return DictV([(_wrap_py(k), _wrap_py(v)) for k, v in obj.items()])
+    if isinstance(obj, (set, frozenset)):
+        return SetV([_wrap_py(x) for x in sorted(obj, key=repr)])
     """a plain Python result of a pure standard-library call on constants, as an interpreter value"""
     if isinstance(obj, list):
         return ListV([_wrap_py(x) for x in obj])
@@ -490,8 +513,28 @@ class Interp:
             raise Undecided('call of non-function %r at line %s' % (f, getattr(node, 'lineno', '?')))
         if f.node is not None:      # lambda
             fr = Frame(None, f.env.module if f.env else None, f.env)
-            for a, v in zip(f.node.args.args, args):
-                fr.vars[a.arg] = v
+            la = f.node.args
+            pos_ = [x.arg for x in la.posonlyargs + la.args]
+            if len(args) > len(pos_) and la.vararg is None:
+                raise Raised('TypeError: <lambda>() takes %d positional arguments but %d were given' % (len(pos_), len(args)), getattr(node, 'lineno', 0))
+            for name_, v in zip(pos_, args):
+                fr.vars[name_] = v
+            if la.vararg is not None:
+                fr.vars[la.vararg.arg] = TupleV(list(args[len(pos_):]))
+            extra_ = {}
+            for k_, v in (kwargs or {}).items():
+                if k_ in pos_ or k_ in [x.arg for x in la.kwonlyargs]:
+                    fr.vars[k_] = v
+                elif la.kwarg is not None:
+                    extra_[k_] = v
+                else:
+                    raise Raised('TypeError: <lambda>() got an unexpected keyword argument %r' % k_, getattr(node, 'lineno', 0))
+            if la.kwarg is not None:
+                fr.vars[la.kwarg.arg] = DictV([(Const(k_), v) for k_, v in extra_.items()])
+            dflt_ = getattr(f.env, 'lambda_defaults', {}) if f.env is not None else {}
+            for name_ in pos_[len(args):]:
+                if name_ not in fr.vars and name_ not in dflt_ and getattr(self, 'concrete_context', False):
+                    raise Raised('TypeError: <lambda>() missing required argument %r' % name_, getattr(node, 'lineno', 0))
             return self.eval(f.node.body, fr)
         fn = f.fn
         if fn.name in self.prims and f.env is None:
@@ -593,7 +636,15 @@ class Interp:
                 self.assign(t, v, fr)
         elif isinstance(st, ast.AugAssign):
             cur = self.eval(_load(st.target), fr)
-            v = self.binop(type(st.op), cur, self.eval(st.value, fr), st)
+            rhs_ = self.eval(st.value, fr)
+            if isinstance(st.op, ast.Add) and isinstance(cur, ListV) and not getattr(cur, 'lazy', False) and getattr(self, 'concrete_context', False):
+                # list += iterable extends the list object in place (aliases see it)
+                cur.items.extend(self.iterate(rhs_, st.value))
+                return
+            if isinstance(cur, SetV) and isinstance(rhs_, SetV) and isinstance(st.op, (ast.BitOr, ast.BitAnd, ast.Sub, ast.BitXor)):
+                cur.items[:] = self.binop(type(st.op), cur, rhs_, st).items
+                return
+            v = self.binop(type(st.op), cur, rhs_, st)
             self.assign(st.target, v, fr)
         elif isinstance(st, ast.If):
             if self.truth(self.eval(st.test, fr), st.test):
@@ -601,9 +652,33 @@ class Interp:
             else:
                 self.exec_block(st.orelse, fr)
         elif isinstance(st, ast.For):
-            it = self.iterate(self.eval(st.iter, fr), st.iter)
+            src_ = self.eval(st.iter, fr)
+            if isinstance(src_, IterV):
+                # an iterator is consumed item by item: what a ``break`` leaves is still there for a later next() / loop
+                def items_():
+                    while src_.pos < len(src_.items):
+                        src_.pos += 1
+                        yield src_.items[src_.pos - 1]
+            elif isinstance(src_, ListV) and getattr(src_, 'lazy', False):
+                def items_():
+                    while src_.items:
+                        yield src_.items.pop(0)
+            elif isinstance(src_, ListV):
+                # a list is iterated live: elements appended by the body are visited too
+                def items_():
+                    i_ = 0
+                    while i_ < len(src_.items):
+                        i_ += 1
+                        if i_ > 100000:
+                            raise Undecided('for loop over a list that keeps growing (line %d)' % st.lineno)
+                        yield src_.items[i_ - 1]
+            else:
+                snapshot_ = self.iterate(src_, st.iter)
+
+                def items_():
+                    return iter(snapshot_)
             broke = False
-            for item in it:
+            for item in items_():
                 self.assign(st.target, item, fr)
                 try:
                     self.exec_block(st.body, fr)
@@ -626,6 +701,8 @@ class Interp:
                     continue
                 except _Break:
                     break
+            else:
+                self.exec_block(st.orelse, fr)
         elif isinstance(st, ast.Return):
             raise _Return(self.eval(st.value, fr) if st.value is not None else NONE)
         elif isinstance(st, ast.Continue):
@@ -744,7 +821,22 @@ class Interp:
             fr.assign(target.id, v)
         elif isinstance(target, (ast.Tuple, ast.List)):
             items = self.iterate(v, target)
+            stars = [i_ for i_, t_ in enumerate(target.elts) if isinstance(t_, ast.Starred)]
+            if len(stars) == 1:
+                k_ = stars[0]
+                after_ = len(target.elts) - k_ - 1
+                if len(items) < len(target.elts) - 1:
+                    raise Raised('ValueError: not enough values to unpack', target.lineno)
+                for t, i in zip(target.elts[:k_], items[:k_]):
+                    self.assign(t, i, fr)
+                self.assign(target.elts[k_].value, ListV(items[k_:len(items) - after_]), fr)
+                for t, i in zip(target.elts[k_ + 1:], items[len(items) - after_:] if after_ else []):
+                    self.assign(t, i, fr)
+                return
             if len(items) != len(target.elts):
+                if isinstance(v, (ListV, TupleV, Const)) and not getattr(v, 'lazy', False):
+                    raise Raised('ValueError: %s values to unpack (expected %d, got %d)' % (
+                        'too many' if len(items) > len(target.elts) else 'not enough', len(target.elts), len(items)), target.lineno)
                 raise Undecided('unpacking %d values into %d targets (line %d)' % (
                     len(items), len(target.elts), target.lineno))
             for t, i in zip(target.elts, items):
@@ -753,6 +845,8 @@ class Interp:
             obj = self.eval(target.value, fr)
             idx = self.eval(target.slice, fr)
             if isinstance(obj, ListV) and isinstance(idx, Const) and isinstance(idx.v, int):
+                if not -len(obj.items) <= idx.v < len(obj.items):
+                    raise Raised('IndexError: list assignment index out of range', target.lineno)
                 obj.items[idx.v] = v
             elif isinstance(obj, DictV):
                 obj.set(idx, v)
@@ -949,6 +1043,8 @@ class Interp:
                 if not hasattr(obj.v, attr):
                     raise Raised('AttributeError: %s.%s' % (type(obj.v).__name__, attr), getattr(n, 'lineno', 0))
                 return _wrap_py(getattr(obj.v, attr))
+            if isinstance(obj, (ListV, TupleV)):
+                return BoundV(obj, attr)        # a method of a known container: modelled, or declined when it is called
             return BoundV(obj, attr) if attr in _METHODS else Sym('%s.%s' % (_prov(obj), attr))
         if isinstance(obj, ExcV):
             return Sym('%s.%s' % (_prov(obj), attr))
@@ -970,6 +1066,13 @@ class Interp:
     def e_Call(self, n, fr):
         if isinstance(n.func, ast.Name) and n.func.id == 'locals' and not n.args and fr.lookup('locals') is None:
             return DictV([(Const(k), v) for k, v in fr.vars.items()])
+        if isinstance(n.func, ast.Name) and n.func.id in ('any', 'all') and len(n.args) == 1 and isinstance(n.args[0], ast.GeneratorExp) \
+                and not n.keywords and fr.lookup(n.func.id) is None and n.func.id not in self.prims:
+            want = n.func.id == 'any'
+            for x in self._comp_iter(n.args[0], fr):
+                if self.truth(x, n) is want:
+                    return Const(want)
+            return Const(not want)
         f = self.eval(n.func, fr)
         args = []
         for a in n.args:
@@ -1149,6 +1252,16 @@ class Interp:
             ne = (getattr(l, 'nonempty', None) or getattr(r, 'nonempty', None) or
                   (isinstance(l, Const) and bool(l.v)) or (isinstance(r, Const) and bool(r.v))) or None
             return SymStr('%s+%s' % (_prov(l), _prov(r)), nonempty=ne)
+        if op is ast.Mod and isinstance(l, Const) and isinstance(l.v, (str, bytes)) and getattr(self, 'concrete_context', False):
+            try:
+                return Const(l.v % _plain(r))
+            except _NotPlain:
+                pass
+            except (TypeError, ValueError) as e:
+                raise Raised('%s: %s' % (type(e).__name__, e), getattr(n, 'lineno', 0))
+        if op is ast.Mult and getattr(self, 'concrete_context', False) and isinstance(l, (ListV, TupleV)) and isinstance(r, Const) and isinstance(r.v, int) \
+                and not getattr(l, 'lazy', False):
+            return type(l)(list(l.items) * r.v)
         if op is ast.Mod and isinstance(l, Const) and isinstance(l.v, str):
             return SymStr('%r%%%s' % (l.v, _prov(r)), nonempty=True if l.v else None)
         sym = {ast.Add: '+', ast.Sub: '-', ast.Mult: '*', ast.Mod: '%', ast.FloorDiv: '//', ast.Div: '/', ast.BitAnd: '&', ast.BitOr: '|'}.get(op, '?')
@@ -1299,6 +1412,10 @@ class Interp:
                 st_ = self.eval(n.slice.step, fr)
                 if isinstance(st_, Const) and isinstance(st_.v, int) and st_.v != 0:
                     return type(obj)(obj.items[lo.v:hi.v:st_.v])
+            if isinstance(obj, Const) and isinstance(obj.v, (str, bytes, tuple)) and isinstance(lo, Const) and isinstance(hi, Const) and n.slice.step is not None:
+                st_ = self.eval(n.slice.step, fr)
+                if isinstance(st_, Const) and isinstance(st_.v, int) and st_.v != 0:
+                    return _wrap_py(obj.v[lo.v:hi.v:st_.v])
             if isinstance(obj, Const) and isinstance(obj.v, (str, bytes, tuple)) and isinstance(lo, Const) and isinstance(hi, Const) and n.slice.step is None:
                 try:
                     return _wrap_py(obj.v[lo.v:hi.v])
@@ -1347,23 +1464,42 @@ class Interp:
         return out
 
     def _comp(self, n, fr):
-        out = []
+        return list(self._comp_iter(n, fr))
+
+    def _comp_iter(self, n, fr):
+        """the elements of a comprehension / generator expression, produced one by one (a consumer that stops early - any, all,
+        next - leaves the rest unevaluated, as in Python)"""
         inner = Frame(fr.fn, fr.module, fr)
 
         def rec(i):
             if i == len(n.generators):
-                out.append(self.eval(n.elt, inner))
+                yield self.eval(n.elt, inner)
                 return
             g = n.generators[i]
             for item in self.iterate(self.eval(g.iter, inner), g.iter):
                 self.assign(g.target, item, inner)
                 if all(self.truth(self.eval(c, inner), c) for c in g.ifs):
-                    rec(i + 1)
-        rec(0)
-        return out
+                    yield from rec(i + 1)
+        yield from rec(0)
 
     def e_Lambda(self, n, fr):
-        return FuncV(None, fr, n)
+        f = FuncV(None, fr, n)
+        a = n.args
+        if a.defaults or any(d is not None for d in a.kw_defaults):
+            # default values are evaluated when the lambda is created
+            pos = [x.arg for x in a.posonlyargs + a.args]
+            dv = {}
+            for name_, d in zip(pos[len(pos) - len(a.defaults):], a.defaults):
+                dv[name_] = self.eval(d, fr)
+            for x, d in zip(a.kwonlyargs, a.kw_defaults):
+                if d is not None:
+                    dv[x.arg] = self.eval(d, fr)
+            self._lambda_defaults = getattr(self, '_lambda_defaults', {})
+            self._lambda_defaults[id(n)] = (n, dv)
+            f = FuncV(None, Frame(None, fr.module, fr), n)
+            f.env.vars.update(dv)
+            f.env.lambda_defaults = dv
+        return f
 
     def e_JoinedStr(self, n, fr):
         parts = []
@@ -1425,7 +1561,7 @@ class Interp:
             return [k for k, _ in v.items]
         if isinstance(v, ValueV) and v.elems is not None:
             return list(v.elems)
-        if isinstance(v, Const) and isinstance(v.v, (tuple, list, str)):
+        if isinstance(v, Const) and isinstance(v.v, (tuple, list, str, bytes, range)):
             return [Const(x) for x in v.v]
         raise Undecided('iteration over %r (line %s)' % (v, getattr(node, 'lineno', '?')))
 
@@ -1460,6 +1596,18 @@ class Interp:
                 srt = self.p_sorted([obj], kwargs, node)
                 obj.items[:] = srt.items
                 return NONE
+            if name == 'clear':
+                del obj.items[:]
+                return NONE
+            if name == 'remove' and args:
+                for i_, x in enumerate(obj.items):
+                    k_ = self._known_eq(args[0], x)
+                    if k_ is None:
+                        raise Undecided('list.remove of an element of unknown equality (line %s)' % getattr(node, 'lineno', '?'))
+                    if k_:
+                        del obj.items[i_]
+                        return NONE
+                raise Raised('ValueError: list.remove(x): x not in list', getattr(node, 'lineno', 0))
         if isinstance(obj, ObjV):
             meth = self.find_method(obj.cls, name) if obj.cls.module is not None else obj.cls.methods.get(name)
             if meth is None:
@@ -1530,6 +1678,31 @@ class Interp:
                 return Const(all(any(self._known_eq(x, y) is True for y in other) for x in obj.items))
             if name == 'copy':
                 return SetV(list(obj.items))
+            if name in ('union', 'intersection', 'difference', 'symmetric_difference') and len(args) == 1 and getattr(self, 'concrete_context', False):
+                other_ = args[0] if isinstance(args[0], SetV) else SetV(self.iterate(args[0], node))
+                op_ = {'union': ast.BitOr, 'intersection': ast.BitAnd, 'difference': ast.Sub, 'symmetric_difference': ast.BitXor}[name]
+                return self.binop(op_, obj, other_, node)
+            if name == 'update' and getattr(self, 'concrete_context', False):
+                for a_ in args:
+                    for x in self.iterate(a_, node):
+                        self.call_method(obj, 'add', [x], {}, node)
+                return NONE
+            if name == 'issuperset' and len(args) == 1:
+                other = self.iterate(args[0], node)
+                return Const(all(any(self._known_eq(x, y) is True for y in obj.items) for x in other))
+            if name == 'clear':
+                del obj.items[:]
+                return NONE
+        if isinstance(obj, (ListV, TupleV)) and name in ('index', 'count') and args and getattr(self, 'concrete_context', False) \
+                and not getattr(obj, 'lazy', False):
+            ks_ = [self._known_eq(args[0], x) for x in obj.items]
+            if any(k_ is None for k_ in ks_):
+                raise Undecided('%s of an element of unknown equality (line %s)' % (name, getattr(node, 'lineno', '?')))
+            if name == 'count':
+                return Const(sum(1 for k_ in ks_ if k_))
+            if True in ks_:
+                return Const(ks_.index(True))
+            raise Raised('ValueError: %s is not in list' % _prov(args[0]), getattr(node, 'lineno', 0))
         if isinstance(obj, CtxV):
             if name == 'nested_call':
                 return CtxV(obj.prov, obj.nested + 1, obj.strategy, obj.attrs)
@@ -1547,9 +1720,10 @@ class Interp:
                 raise Raised('%s: %s' % (type(e).__name__, e), getattr(node, 'lineno', 0))
             return _wrap_py(r)
         if isinstance(obj, Const) and isinstance(obj.v, (str, bytes)) and name in _PURE_STR_METHODS and hasattr(obj.v, name) and not kwargs \
-                and all(isinstance(a, Const) for a in args) and (isinstance(obj.v, str) or getattr(self, 'concrete_context', False)):
+                and all(isinstance(a, Const) or (isinstance(a, TupleV) and all(isinstance(x, Const) for x in a.items)) for a in args) \
+                and (isinstance(obj.v, str) or getattr(self, 'concrete_context', False)):
             try:
-                r = getattr(obj.v, name)(*[a.v for a in args])
+                r = getattr(obj.v, name)(*[_plain(a) for a in args])
             except Exception as e:      # what CPython would raise
                 raise Raised('%s: %s' % (type(e).__name__, e), getattr(node, 'lineno', 0))
             if isinstance(r, list):
@@ -1557,11 +1731,11 @@ class Interp:
             if isinstance(r, tuple):
                 return TupleV([Const(x) for x in r])
             return Const(r)
-        if name == 'format' and isinstance(obj, Const) and isinstance(obj.v, str) and not kwargs and args \
-                and all(isinstance(a, Const) and isinstance(a.v, (str, int)) and not isinstance(a.v, bool) for a in args) \
+        if name == 'format' and isinstance(obj, Const) and isinstance(obj.v, str) and (args or kwargs) \
+                and all(isinstance(a, Const) and isinstance(a.v, (str, int, float, bytes, type(None))) for a in list(args) + list(kwargs.values())) \
                 and getattr(self, 'concrete_context', False):
             try:
-                return Const(obj.v.format(*[a.v for a in args]))
+                return Const(obj.v.format(*[a.v for a in args], **{k_: v_.v for k_, v_ in kwargs.items()}))
             except Exception as e:
                 raise Raised('%s: %s' % (type(e).__name__, e), getattr(node, 'lineno', 0))
         if name == 'format':
@@ -1733,6 +1907,11 @@ class Interp:
         if name in ('str', 'repr') and getattr(self, 'concrete_context', False) and len(args) == 1 and isinstance(args[0], Const) \
                 and isinstance(args[0].v, (str, bytes, int, float, bool, type(None))):
             return Const(str(args[0].v) if name == 'str' else repr(args[0].v))
+        if name in ('str', 'repr') and getattr(self, 'concrete_context', False) and len(args) == 1 and isinstance(args[0], (ListV, TupleV, DictV, SetV)):
+            try:
+                return Const(repr(_plain(args[0])))
+            except _NotPlain:
+                pass
         if name in ('str', 'repr'):
             return SymStr('%s(%s)' % (name, _prov(args[0])) if args else "''")
         if name == 'set' and getattr(self, 'concrete_context', False):
@@ -1803,6 +1982,10 @@ class Interp:
             return TypeV('tuple')
         if isinstance(v, SymStr):
             return TypeV('str')
+        if isinstance(v, DictV):
+            return TypeV('dict')
+        if isinstance(v, SetV):
+            return TypeV('set')
         return Sym('type(%s)' % _prov(v))
 
     def as_term(self, v, node=None):
@@ -1956,11 +2139,17 @@ class Interp:
             return Const(bool(seen & set(names)) or 'object' in names)
         if isinstance(v, Const):
             tn = 'NoneType' if v.v is None else type(v.v).__name__
-            return Const(tn in names or (tn == 'bool' and 'int' in names))
+            return Const(tn in names or (tn == 'bool' and 'int' in names) or 'object' in names)
         if isinstance(v, (ListV,)):
-            return Const('list' in names)
+            return Const('list' in names or 'object' in names)
         if isinstance(v, TupleV):
+            if getattr(self, 'concrete_context', False):
+                return Const('tuple' in names or 'object' in names)
             return Const('tuple' in names or 'dict' in names or 'OrderedDict' in names)
+        if isinstance(v, DictV):
+            return Const('dict' in names or 'object' in names)
+        if isinstance(v, SetV):
+            return Const('set' in names or 'object' in names)
         if isinstance(v, SymStr):
             return Const('str' in names)
         if isinstance(v, (FuncV, Prim, TypeV)):
@@ -1977,6 +2166,16 @@ class Interp:
         if not (isinstance(start, Const) and isinstance(start.v, int)):
             raise Undecided('enumerate with a symbolic start')
         return ListV([TupleV([Const(i), x]) for i, x in enumerate(self.iterate(a[0], n), start.v)], lazy=bool(getattr(self, 'concrete_context', False)))
+
+    def p_sum(self, a, k, n):
+        try:
+            vals_ = [_plain(x) for x in self.iterate(a[0], n)]
+            start_ = _plain(a[1]) if len(a) > 1 else 0
+            return _wrap_py(sum(vals_, start_))
+        except _NotPlain:
+            return Sym('sum(%s)' % _prov(a[0]), 'int')
+        except TypeError as e:
+            raise Raised('TypeError: %s' % e, getattr(n, 'lineno', 0))
 
     def p_range(self, a, k, n):
         if not all(isinstance(x, Const) and isinstance(x.v, int) for x in a) or not 1 <= len(a) <= 3:
@@ -2129,9 +2328,30 @@ class Interp:
         return Sym('id(%s)' % _prov(a[0]), 'int')
 
     def p_repr(self, a, k, n):
+        if getattr(self, 'concrete_context', False):
+            try:
+                return Const(repr(_plain(a[0])))
+            except _NotPlain:
+                pass
         return SymStr('repr(%s)' % _prov(a[0]), nonempty=True)
 
     def p_min(self, a, k, n):
+        if getattr(self, 'concrete_context', False) and len(a) == 1 and not isinstance(a[0], (Sym, SymStr)) \
+                and not (isinstance(a[0], Const) and not isinstance(a[0].v, (str, bytes, tuple))):
+            items_ = self.iterate(a[0], n)
+            keyf_ = k.get('key') if isinstance(k, dict) else None
+            if not items_:
+                if isinstance(k, dict) and 'default' in k:
+                    return k['default']
+                raise Raised('ValueError: min() arg is an empty sequence', getattr(n, 'lineno', 0))
+            try:
+                ks_ = [_plain(self.call_function(keyf_, [x], {}, n)) if keyf_ is not None else _plain(x) for x in items_]
+                best_ = min(range(len(items_)), key=lambda i_: ks_[i_])
+                return items_[best_]
+            except _NotPlain:
+                pass
+            except TypeError as e:
+                raise Raised('TypeError: ' + str(e), getattr(n, 'lineno', 0))
         if all(isinstance(x, Const) for x in a):
             try:
                 return Const(min(x.v for x in a))
@@ -2160,6 +2380,22 @@ class Interp:
         raise Undecided('copy of %r' % (v,))
 
     def p_max(self, a, k, n):
+        if getattr(self, 'concrete_context', False) and len(a) == 1 and not isinstance(a[0], (Sym, SymStr)) \
+                and not (isinstance(a[0], Const) and not isinstance(a[0].v, (str, bytes, tuple))):
+            items_ = self.iterate(a[0], n)
+            keyf_ = k.get('key') if isinstance(k, dict) else None
+            if not items_:
+                if isinstance(k, dict) and 'default' in k:
+                    return k['default']
+                raise Raised('ValueError: max() arg is an empty sequence', getattr(n, 'lineno', 0))
+            try:
+                ks_ = [_plain(self.call_function(keyf_, [x], {}, n)) if keyf_ is not None else _plain(x) for x in items_]
+                best_ = max(range(len(items_)), key=lambda i_: ks_[i_])
+                return items_[best_]
+            except _NotPlain:
+                pass
+            except TypeError as e:
+                raise Raised('TypeError: ' + str(e), getattr(n, 'lineno', 0))
         if all(isinstance(x, Const) for x in a):
             try:
                 return Const(max(x.v for x in a))
@@ -2213,6 +2449,12 @@ class Interp:
         return a[0]
 
     def p_divmod(self, a, k, n):
+        if isinstance(a[0], Const) and isinstance(a[1], Const) and isinstance(a[0].v, (int, float)) and isinstance(a[1].v, (int, float)):
+            try:
+                q_, r_ = divmod(a[0].v, a[1].v)
+            except ZeroDivisionError as e:
+                raise Raised('ZeroDivisionError: %s' % e, getattr(n, 'lineno', 0))
+            return TupleV([Const(q_), Const(r_)])
         return TupleV([Sym('(%s//%s)' % (_prov(a[0]), _prov(a[1])), 'int'), Sym('(%s%%%s)' % (_prov(a[0]), _prov(a[1])), 'int')])
 
     def p_abs(self, a, k, n):
